@@ -57,6 +57,9 @@ pub fn solve_instance(input_data: serde_json::Value) -> serde_json::Value {
         "Result from min cost flow solver".to_string(),
     );
 
+    #[cfg(rssched_verif)]
+    solver::verif_hooks::record_stage("start", start_schedule_with_info.get_schedule());
+
     let solution = if network.maintenance_considered() {
         println!("\nStarting local search:\n");
         println!("Initial objective value:");
@@ -74,6 +77,9 @@ pub fn solve_instance(input_data: serde_json::Value) -> serde_json::Value {
         println!("\nMaintenance is not considered, returning MinCostFlowSolver solution as final solution");
         objective.evaluate(start_schedule_with_info.clone())
     };
+
+    #[cfg(rssched_verif)]
+    solver::verif_hooks::record_stage("local_search", solution.solution().get_schedule());
 
     // optimize transitions
     println!("\nOptimizing transitions:");
@@ -105,6 +111,11 @@ pub fn solve_instance(input_data: serde_json::Value) -> serde_json::Value {
         start_time_transition_optimization.elapsed().as_secs_f32()
     );
     schedule_with_optimized_transitions.print_next_day_transitions();
+    #[cfg(rssched_verif)]
+    solver::verif_hooks::record_stage(
+        "optimized_transitions",
+        &schedule_with_optimized_transitions,
+    );
 
     // reassign end depots to be consistent with transitions
     let final_schedule = solution
@@ -122,6 +133,8 @@ pub fn solve_instance(input_data: serde_json::Value) -> serde_json::Value {
     let runtime_duration = end_time.duration_since(start_time);
 
     let final_schedule = final_solution.solution().get_schedule();
+    #[cfg(rssched_verif)]
+    solver::verif_hooks::record_stage("final", final_schedule);
 
     let overflow_depot = network.overflow_depot_idxs().0;
     for vehicle_type in network.vehicle_types().iter() {
